@@ -130,7 +130,9 @@ def run_case(chk, c, items, meta):
             applied.append(np.array(res.data))
         at_ok = all(np.array_equal(np.array(U.at(float(ta.data[i])).data), data[i]) for i in range(nt))
         allres = np.array(U.apply(ta, qr.ReducedDensityMatrix(data=rho.copy())).data)   # time="all" raises AttributeError in the package (str has no .data): not used
-        # incremental mode
+        # incremental mode: the mode chosen for the Coq comparison, and ALWAYS also the in-place mode (save=False) for more
+        # calls than the grid has points (it keeps only the current value, so it may run on): every value must be the
+        # corresponding power of the first one
         Uj = EvolutionSuperOperator(time=ta, ham=qr.Hamiltonian(data=H.copy()), relt=relt(), mode="jit")
         Uj.set_dense_dt(nd)
         jit = []
@@ -139,6 +141,19 @@ def run_case(chk, c, items, meta):
             jit.append(np.array(Uj.data[k] if c["save"] else Uj.data).copy())
             if Uj.now != k:
                 chk.violation("jit:now", "after %d calls of calculate_next the counter is %d" % (k, Uj.now), "monitor", c)
+        Ui = EvolutionSuperOperator(time=ta, ham=qr.Hamiltonian(data=H.copy()), relt=relt(), mode="jit")
+        Ui.set_dense_dt(nd)
+        pw = None
+        for k in range(1, 7):
+            Ui.calculate_next()
+            cur = np.array(Ui.data).copy()
+            pw = cur.copy() if k == 1 else np.tensordot(first, pw)
+            if k == 1:
+                first = cur.copy()
+            if np.max(np.abs(cur - pw)) > 1e-10 * max(1.0, float(np.max(np.abs(pw)))):
+                chk.violation("jit_inplace_power", "incremental mode (save=False): the value after %d calls is not the %d-th power of the value after the "
+                              "first call (max deviation %g) (case %s)" % (k, k, np.max(np.abs(cur - pw)), json.dumps(c)), "monitor", c)
+                break
         # direct propagation with the same dense step
         prop = qr.ReducedDensityMatrixPropagator(ta, qr.Hamiltonian(data=H.copy()), RTensor=relt())
         if nd > 1:
